@@ -30,6 +30,7 @@
 
 static PStructElem          pLabelElement;
 static struct sSymbolEntry* pLabelEntry;
+static struct sSymbolEntry* pLabelAlias; /* its section_name twin, if exported with GLOBAL */
 static LargeWord            LabelValue;
 
 /* ------------------------------------------------------------------------
@@ -44,6 +45,7 @@ static LargeWord            LabelValue;
 void LabelReset(void) {
     pLabelElement = NULL;
     pLabelEntry   = NULL;
+    pLabelAlias   = NULL;
     LabelValue    = (LargeWord)-1;
 }
 
@@ -98,6 +100,7 @@ Boolean LabelPresent(void) {
 void LabelHandle(tStrComp const* pName, LargeWord Value, Boolean ForceGlobal) {
     pLabelElement = NULL;
     pLabelEntry   = NULL;
+    pLabelAlias   = NULL;
 
     /* structure element ? */
 
@@ -132,6 +135,7 @@ void LabelHandle(tStrComp const* pName, LargeWord Value, Boolean ForceGlobal) {
                             | (Value == AfterBSRAddr ? eSymbolFlag_NextLabelAfterBSR
                                                      : eSymbolFlag_None));
         }
+        pLabelAlias = pLabelEntry ? GetLastSymbolAlias() : NULL;
         if (ForceGlobal) {
             PopLocHandle();
         }
@@ -153,6 +157,9 @@ void LabelModify(LargeWord OldValue, LargeWord NewValue) {
         }
         if (pLabelEntry) {
             ChangeSymbol(pLabelEntry, NewValue);
+        }
+        if (pLabelAlias) {
+            ChangeSymbol(pLabelAlias, NewValue);
         }
         LabelValue = NewValue;
     }
